@@ -52,37 +52,18 @@ def is_sequence_type_restriction(st1: str, st2: str) -> bool:
 
     if not st1 or st1[0] == '{' or not st2 or st2[0] == '{':
         return False
-    elif st2 in ('empty-sequence()', 'none') and \
-            (st1 in ('empty-sequence()', 'none') or st1.endswith(('?', '*'))):
-        return True
 
-    # check occurrences
-    if st1[-1] not in '?+*':
-        if st2[-1] in '+*':
-            return False
-        elif st2[-1] == '?':
-            st2 = st2[:-1]
+    # split occurrences: a trailing indicator of a typed function test belongs to its return type
+    occ1 = occ2 = ''
+    if st1[-1] in '?+*' and not (st1.startswith('function(') and ') as ' in st1):
+        st1, occ1 = st1[:-1], st1[-1]
+    if st2[-1] in '?+*' and not (st2.startswith('function(') and ') as ' in st2):
+        st2, occ2 = st2[:-1], st2[-1]
 
-    elif st1[-1] == '+':
-        st1 = st1[:-1]
-        if st2[-1] in '?*':
-            return False
-        elif st2[-1] == '+':
-            st2 = st2[:-1]
-
-    elif st1[-1] == '*':
-        st1 = st1[:-1]
-        if st2[-1] in '?+':
-            return False
-        elif st2[-1] == '*':
-            st2 = st2[:-1]
-
-    else:
-        st1 = st1[:-1]
-        if st2[-1] in '+*':
-            return False
-        elif st2[-1] == '?':
-            st2 = st2[:-1]
+    if st2 in ('empty-sequence()', 'none'):
+        return st1 in ('empty-sequence()', 'none') or occ1 in ('?', '*')
+    elif occ2 and occ1 != occ2:
+        return False
 
     if st1 == st2:
         return True
